@@ -148,7 +148,7 @@ fn check_roto_type(
                 x if x == IPADDR => "IpAddr",
                 x if x == PREFIX => "Prefix",
                 x if x == STRING => "String",
-                _ => panic!(),
+                _ => return Err(error_message),
             };
             let expected_roto = Type::named(expected_name, Vec::new());
             if expected_roto == roto_type {
